@@ -5,6 +5,7 @@ compared type-strictly with what `run` returned; stored bytes are compared befor
 (no write).  Glue outcomes (None / mistyped / falsy results, a stored null), the json-lines framing and the file naming /
 ordering of ListOfNumpyData are compared with the Lean model (TCV.Glue)."""
 import hashlib
+import json
 import os
 from pathlib import Path
 
@@ -203,6 +204,9 @@ def run(ctx):
     out = ctx.model.many(model_reqs)
     for chk, mo in zip(model_chk, out):
         chk(mo)
+    fsx.uninstall() if hasattr(fsx, 'uninstall') else None
+    locale_probe(ctx)
+    sibling_names_probe(ctx)
 
 
 def roundtrip_case(ctx, case, label, kind, cls, v, d, rng, ws, ask, dtasks, fsx, tdata, pathlib, other=None):
@@ -395,6 +399,82 @@ def glue_cases(ctx, label, kind, cls, d, ask, dtasks):
             impl = f'other:{type(e).__name__}'
         ask({'m': 'glue', 'op': 'reload', 'bad': [], 'reader_none': True, 'store': 'null'},
             lambda mo, impl=impl, case=case: mo == {'error': impl} or ctx.diverge('glue:stored-null', case, impl, mo))
+
+
+LOCALE_SCRIPT = r'''
+import sys, json, logging, warnings
+warnings.filterwarnings('ignore'); logging.disable(logging.CRITICAL)
+sys.path.insert(0, %(repo)r)
+from pathlib import Path
+from typing import Generator
+from taskchain import Task, Config
+VAL = ['caf\u00e9', {'k': '\u65e5\u672c', 'e': '\U0001f600'}, 'plain']
+class Rows(Task):
+    def run(self) -> Generator:
+        yield from VAL
+class Doc(Task):
+    def run(self) -> dict:
+        return {'v': VAL}
+out = {}
+for cls, name in ((Rows, 'rows'), (Doc, 'doc')):
+    try:
+        a = Config(Path(sys.argv[1]), name='c', data={'tasks': [cls]}).chain().tasks[name].value
+        b = Config(Path(sys.argv[1]), name='c', data={'tasks': [cls]}).chain().tasks[name].value
+        out[name] = [list(a) if name == 'rows' else a, list(b) if name == 'rows' else b]
+    except Exception as e:
+        out[name] = {'error': type(e).__name__ + ': ' + str(e)[:100]}
+print(json.dumps(out))
+'''
+
+
+def locale_probe(ctx):
+    """values round-trip whatever the locale of the process: the same two chains (compute, then load) in a fresh interpreter under the POSIX
+    locale with UTF-8 mode and locale coercion off — non-ASCII strings in JSON and line-wise JSON results come back exactly"""
+    import os
+    import subprocess
+    import sys
+    from tcv.core import REPO
+    root = ctx.tmpdir() / 'locale'
+    root.mkdir(parents=True, exist_ok=True)
+    script = root / 'script.py'
+    script.write_text(LOCALE_SCRIPT % {'repo': str(REPO / 'src')})
+    val = ['caf\u00e9', {'k': '\u65e5\u672c', 'e': '\U0001f600'}, 'plain']
+    for label, extra in (('POSIX locale', {'LC_ALL': 'C', 'LANG': 'C', 'PYTHONCOERCECLOCALE': '0', 'PYTHONUTF8': '0'}), ('utf-8 locale', {'LC_ALL': 'C.UTF-8'})):
+        env = {k: v for k, v in os.environ.items() if not k.startswith('LC_') and k not in ('LANG', 'PYTHONUTF8', 'PYTHONCOERCECLOCALE')}
+        env.update(extra)
+        r = subprocess.run([sys.executable, str(script), str(root / label.replace(' ', '_'))], env=env, capture_output=True, text=True, timeout=120)
+        case = {'probe': 'locale of the process', 'locale': label}
+        ctx.case(case); ctx.count('locale-probe')
+        try:
+            out = json.loads(r.stdout.strip().split('\n')[-1])
+        except Exception:       # noqa
+            ctx.fail('computing and reloading non-ASCII values fails under this locale', case, (r.stderr or r.stdout)[-300:]); continue
+        for name, exp in (('rows', val), ('doc', {'v': val})):
+            if out.get(name) != [exp, exp]:
+                ctx.fail('a non-ASCII value does not round-trip under this locale', case, {'task': name, 'got': out.get(name)})
+
+
+def sibling_names_probe(ctx):
+    """tasks whose names differ only in characters that are not letters, digits or `_` (`recall@k`, `recall_k`, `recall-k`) and whose keys
+    coincide (no parameters) are different tasks: each stores and reloads its own value"""
+    from taskchain import Task, Config
+    root = ctx.tmpdir() / 'siblings'
+    names = ['recall@k', 'recall_k', 'recall-k', 'recall.k', 'recall k']
+    classes = []
+    for j, nm in enumerate(names):
+        classes.append(type(f'Sib{j}', (Task,), {'Meta': type('Meta', (), {'name': nm}), 'run': (lambda j_: (lambda self: {'who': j_}))(j),
+                                                 '__annotations__': {}}))
+        classes[-1].run.__annotations__['return'] = dict
+    case = {'probe': 'sibling task names', 'names': names}
+    ctx.case(case); ctx.count('sibling-names-probe')
+    try:
+        for rnd in range(2):
+            chain = Config(root, name='c', data={'tasks': classes}).chain()
+            got = {nm: chain.tasks[nm].value for nm in names}
+            if got != {nm: {'who': j} for j, nm in enumerate(names)}:
+                ctx.fail('a task loaded the stored value of a task with a similar name', case, {'round': rnd, 'got': got}); break
+    except Exception as e:      # noqa
+        ctx.notes['sibling-names'] = f'not constructible: {type(e).__name__}: {e}'[:200]
 
 
 def search(ctx, divergences):
